@@ -98,8 +98,13 @@ Lemma constants :
   PERM_BASIC = 1 /\ PERM_LOGINOK = 16 /\ PERM_BM = 1024 /\ PERM_BOARD = 8192 /\ PERM_SYSOP = 16384 /\
   PERM_NOCITIZEN = 4194304 /\ PERM_POLICE_MAN = 268435456 /\ PERM_POLICE = 2147483648 /\
   BRD_GROUPBOARD = 8 /\ BRD_HIDE = 16 /\ BRD_POSTMASK = 32 /\ BRD_SYMBOLIC = 32768 /\ BRD_OVER18 = 16777216 /\
-  NBRD_INVALID = 0 /\ NBRD_FAV = 1 /\ NBRD_BOARD = 2 /\ NBRD_LINE = 4 /\ NBRD_FOLDER = 8 /\ USE_REAL_DESC = 0.
-Proof. repeat split; reflexivity. Qed.
+  NBRD_INVALID = 0 /\ NBRD_FAV = 1 /\ NBRD_BOARD = 2 /\ NBRD_LINE = 4 /\ NBRD_FOLDER = 8 /\ USE_REAL_DESC = 0 /\
+  (* ... and in EVERY build configuration gosync translates (default, and -tags docker: the production build): the same
+     words in the same order, and the option that lets a refused summary carry the real title is off *)
+  (forall c : build, build_words c =
+     [1; 16; 1024; 8192; 16384; 4194304; 268435456; 2147483648; 8; 16; 32; 32768; 16777216; 0; 1; 2; 4; 8; 0]) /\
+  (forall c : build, use_real_desc c = 0).
+Proof. repeat split; try reflexivity; intros c; destruct c; reflexivity. Qed.
 
 (* every consistent row of the table is produced by some user level / board attribute / board level *)
 Definition bit (b : bool) (m : Z) : Z := if b then m else 0.
@@ -306,7 +311,7 @@ Proof. vm_compute. reflexivity. Qed.
 Lemma parse_summary_title pf bid stat attr gop :
   s_title (parse_summary pf bid stat attr gop) = s_title (parse_summary pf 0 stat 0 gop).
 Proof.
-  unfold parse_summary.
+  unfold parse_summary, parse_summary_with.
   destruct (negb (Z.land stat NBRD_LINE =? 0)); [reflexivity |].
   destruct (negb pf && negb (Z.land stat NBRD_FOLDER =? 0)); [reflexivity |].
   destruct (negb gop && (stat =? NBRD_INVALID)); reflexivity.
@@ -322,7 +327,7 @@ Qed.
 
 Lemma parse_summary_bid pf bid stat attr gop : s_bid (parse_summary pf bid stat attr gop) = bid.
 Proof.
-  unfold parse_summary.
+  unfold parse_summary, parse_summary_with.
   destruct (negb (Z.land stat NBRD_LINE =? 0)); [reflexivity |].
   destruct (negb pf && negb (Z.land stat NBRD_FOLDER =? 0)); [reflexivity |].
   destruct (negb gop && (stat =? NBRD_INVALID)); reflexivity.
@@ -545,7 +550,62 @@ Lemma unguarded_helper_refuted : exists i, consistent i = true /\ may_read i = f
   ep_load_same_create_time 2 [1; 2] = Data [1; 2].
 Proof. exists (abs 31 false false false false (BRD_HIDE + BRD_POSTMASK) 0). vm_compute. auto. Qed.
 
+(* ------------------------------------------------------------------ build configurations *)
+(* The option USE_REAL_DESC_FOR_HIDDEN_BOARD_IN_MYFAV is the only thing of the model a build configuration may set.
+   It is read in one branch of parseBoardSummary only: the summary of a board the caller may not list. *)
+Lemma summarize_any_option urd pf u b : may_list (row u b) = true -> summarize_with urd pf u b = summarize pf u b.
+Proof.
+  intros Hl. rewrite <- visible_may_list in Hl. unfold visible in Hl.
+  unfold summarize_with, summarize, parse_summary, parse_summary_with.
+  destruct (negb (Z.land (perm_stat (row u b)) NBRD_LINE =? 0)); [reflexivity |].
+  destruct (negb pf && negb (Z.land (perm_stat (row u b)) NBRD_FOLDER =? 0)); [reflexivity |].
+  destruct (group_op (row u b)); [reflexivity |].
+  destruct (perm_stat (row u b) =? NBRD_INVALID); [discriminate Hl | reflexivity].
+Qed.
+
+Lemma summary_with_off urd u b : urd = 0 -> load_board_summary_with urd u b = load_board_summary u b.
+Proof. intros ->. reflexivity. Qed.
+
+(* with the option off the summary masks the title exactly as the property asks ... *)
+Lemma summary_title_option_off urd u b : urd = 0 ->
+  s_title (load_board_summary_with urd u b) = may_list (row u b) /\ s_bid (load_board_summary_with urd u b) = b_bid b.
+Proof. intros H. rewrite (summary_with_off urd u b H). apply summary_title. Qed.
+
+(* ... and ONLY with the option off: a build that switches it on hands the title of a hidden board with restricted
+   mask to a plain user who is no friend of it *)
+Lemma summary_title_iff_option_off urd :
+  (forall u b, s_title (load_board_summary_with urd u b) = may_list (row u b)) <-> urd = 0.
+Proof.
+  split.
+  - intros H. specialize (H (mk_user 31 false) (mk_board 10 true 48 0 false false false true)).
+    destruct (urd =? 0) eqn:E; [apply Z.eqb_eq; exact E |].
+    exfalso. revert H. unfold load_board_summary_with, summarize_with, parse_summary_with.
+    cbn [b_attr b_bid]. change (perm_stat (row (mk_user 31 false) (mk_board 10 true 48 0 false false false true))) with 0.
+    change (group_op (row (mk_user 31 false) (mk_board 10 true 48 0 false false false true))) with false.
+    change (may_list (row (mk_user 31 false) (mk_board 10 true 48 0 false false false true))) with false.
+    change (negb (Z.land 48 BRD_GROUPBOARD =? 0)) with false.
+    change (negb (Z.land 0 NBRD_LINE =? 0)) with false. change (negb (Z.land 0 NBRD_FOLDER =? 0)) with false.
+    change (0 =? NBRD_INVALID) with true. cbn [negb andb s_title]. rewrite E. discriminate.
+  - intros H u b. apply summary_title_option_off. exact H.
+Qed.
+
+(* every build gosync translates has it off, so the production build masks as the default one does *)
+Lemma summary_title_every_build : forall (c : build) u b,
+  s_title (load_board_summary_in c u b) = may_list (row u b) /\ s_bid (load_board_summary_in c u b) = b_bid b.
+Proof. intros c u b. apply summary_title_option_off. destruct c; reflexivity. Qed.
+
+Example summary_every_build_hides : exists u b, consistent (row u b) = true /\ may_list (row u b) = false /\
+  s_title (load_board_summary_in Docker u b) = false /\ s_title (load_board_summary_in Default u b) = false.
+Proof. exists (mk_user 31 false), (mk_board 10 true 48 0 false false false true). vm_compute. auto. Qed.
+Example summary_option_on_reveals : exists u b, consistent (row u b) = true /\ may_list (row u b) = false /\
+  s_title (load_board_summary_with 1 u b) = true.
+Proof. exists (mk_user 31 false), (mk_board 10 true 48 0 false false false true). vm_compute. auto. Qed.
+
 (* ------------------------------------------------------------------ packaged statements for Props/C07.v *)
+Lemma every_build : forall (c : build),
+  (forall u b, s_title (load_board_summary_in c u b) = may_list (row u b) /\ s_bid (load_board_summary_in c u b) = b_bid b) /\
+  (forall pf u b, may_list (row u b) = true -> summarize_with (use_real_desc c) pf u b = summarize pf u b).
+Proof. intros c. split; [apply summary_title_every_build | intros; apply summarize_any_option; assumption]. Qed.
 Lemma rule_on_bits : forall ulevel o18 inbm fr nbm battr blevel,
   perm_stat_bits ulevel o18 inbm fr battr blevel = perm_stat (abs ulevel o18 inbm fr nbm battr blevel) /\
   group_op_bits ulevel nbm = group_op (abs ulevel o18 inbm fr nbm battr blevel) /\
